@@ -496,9 +496,9 @@ def run_property(prop, tier='quick', seed=0, replay=None):
     broken_corr = []
     failing = []
     for i, code in enumerate(codes):
-        if code == 0:
-            continue
         base, g = code % 10, code // 10
+        if base == 0:
+            continue
         if base == 2 and g in known_by_guard:
             known_hit.setdefault(g, []).append(i)
         elif base == 1 and g in known_by_guard:
